@@ -44,7 +44,7 @@ import XotModel.Props.C01
 import XotModel.Lemmas.FfixedRepresentable
 import XotModel.Lemmas.FparseRoute
 import XotModel.Model.FparseRouteSpec
-import XotModel.Lemmas.Fprog2Main
+import XotModel.Lemmas.Fprog2Conv
 
 namespace XotModel.Props
 open XotModel
@@ -730,6 +730,33 @@ theorem C20_program_parse_route (env : Env) (f : Forest) (P : Prog2.Program) (ro
   obtain ⟨p, k1, k2, k3, k4⟩ := C20_parse_route env d hr s hs
   exact ⟨h, treeOf d, p, o1, eh, th, hs, k1, k2, k3, k4, by rw [k2, k3]; exact hs⟩
 
+/-- **Conversely**: an extended program every step of which the implementation answers `ok` is well-formed
+    for the specification, with the same final state (then `C20_program_refines` / `C20_any_program`
+    apply).  `Prog2.inScope`: what `Prog.inScope` excludes, and `detach` / `remove` of a node that does not
+    exist any more (the model answers `ok` and changes nothing). -/
+theorem C20_any_program_conv (s : Prog.State) (P : Prog2.Program) (inv : s.forest.Inv)
+    (hfl : Prog.FlagsOk s.forest) (hsc : Prog2.inScope s P = true) (hok : (Prog2.runImpl s P).2 = .ok) :
+    Prog2.runSpec s P = some (Prog2.runImpl s P).1 :=
+  Prog2.run_impl_spec P s inv hfl hsc hok
+
+/-- **Refusals are exact** for extended programs: the first step the implementation does not answer `ok`
+    is the first step the specification calls ill-formed — the ordered-tree tests `Prog2.replaceOk`,
+    `wrapOk`, `unwrapOk` and the kind tests of the setters are exactly xot's argument checks, and after
+    them nothing goes wrong. -/
+theorem C20_program_refusal_exact (s : Prog.State) (P : Prog2.Program) (inv : s.forest.Inv)
+    (hfl : Prog.FlagsOk s.forest) (hsc : Prog2.inScope s P = true) :
+    Prog2.firstRefused s P = Prog2.firstIllFormed s P :=
+  Prog2.firstRefused_eq P s inv hfl hsc
+
+/-- The well-formedness tests of the composite calls against xot's outcome, one call at a time. -/
+theorem C20_program_checks (f : Forest) (inv : f.Inv) (hfl : Prog.FlagsOk f) :
+    (∀ a b, Prog2.replaceOk f a b = true ↔ (f.replace a b).2 = .ok) ∧
+    (∀ n name, Prog2.wrapOk f n = true ↔ (f.elementWrap n name).2.1 = .ok) ∧
+    (∀ n, Prog2.unwrapOk f n = true ↔ (f.elementUnwrap n).2 = .ok) :=
+  ⟨fun _ _ => ⟨Prog2.replace_ok inv (Prog.normal_of_flags inv hfl), Prog2.replaceOk_of_ok⟩,
+   fun _ name => ⟨Prog2.elementWrap_ok name inv (Prog.normal_of_flags inv hfl), Prog2.wrapOk_of_ok⟩,
+   fun _ => ⟨Prog2.elementUnwrap_ok inv, Prog2.unwrapOk_of_ok⟩⟩
+
 /-- The eight-step programs are the extended programs without a new step (the extension is
     conservative): same run on the specification, same run on the implementation. -/
 theorem C20_program_base (s : Prog.State) (P : Prog.Program) :
@@ -823,6 +850,12 @@ example : (Prog2.runImpl { forest := Forest.init } progX).2 = .ok ∧
 example : (Prog2.runImplF Forest.init progX).2 = .ok ∧
     (Prog2.runImplF Forest.init progX).1.content = [treeOf docC] ∧
     (Prog2.runSpecF Forest.init progX).map Forest.content = some [treeOf docC] := by
+  decide +kernel
+
+example : Prog2.inScope { forest := Forest.init } progX = true ∧
+    Prog2.firstRefused { forest := Forest.init } progX = none ∧
+    Prog2.firstRefused { forest := Forest.init } [.base (.create (.element 2)), .setText 0 ['x']] = some 1 ∧
+    Prog2.firstIllFormed { forest := Forest.init } [.base (.create (.element 2)), .setText 0 ['x']] = some 1 := by
   decide +kernel
 
 example : ∃ a b, (Prog2.runImpl { forest := Forest.init } progX).1.env[8]? = some a ∧
